@@ -92,6 +92,10 @@ func c11Call(ch netty.Channel, entry int, buf []byte) (err error) {
 	case 0:
 		_, err = ch.Write1(buf)
 	case 1:
+		if len(buf) == 0 {
+			_, err = ch.Writev(nil)
+			break
+		}
 		_, err = ch.Writev([][]byte{buf[:len(buf)/2], buf[len(buf)/2:]})
 	case 2:
 		_, err = ch.CtxWrite1(ctx, buf)
@@ -220,7 +224,7 @@ func c11Grid(c *core.Ctx, id string, m mon.Mode, q int, closer, argName string, 
 		return
 	}
 	closeTick := mon.Tick()
-	sizes := []int{16, 100, 1024, 5000}
+	sizes := []int{16, 100, 1024, 5000, 0} // also the empty payload: a write on a closed channel fails whatever it carries
 	type call struct {
 		entry, seq, size int
 		err              error
